@@ -18,6 +18,7 @@ package react
 
 import (
 	"context"
+	"errors"
 	"io"
 
 	"github.com/cloudwego/eino/components/model"
@@ -218,6 +219,14 @@ func NewAgent(ctx context.Context, config *AgentConfig) (_ *Agent, err error) {
 	}
 
 	toolsNodePreHandle := func(ctx context.Context, input *schema.Message, state *state) (*schema.Message, error) {
+		if input == nil {
+			// the tools node is run again after one of its tools asked for an interrupt: its input was consumed by the
+			// interrupted attempt, the assistant message it has to answer is the last one of the history
+			if n := len(state.Messages); n > 0 {
+				return state.Messages[n-1], nil
+			}
+			return nil, errors.New("tools node is run again but the history holds no assistant message")
+		}
 		state.Messages = append(state.Messages, input)
 		state.ReturnDirectlyToolCallID, state.ReturnDirectlyToolCallPos = getReturnDirectlyToolCallID(input, config.ToolReturnDirectly)
 		return input, nil
